@@ -396,7 +396,7 @@ def run_fresh(prop, tape_values, seed, keep_events=False, timeout=1500):
             pass
 
 
-def confirm_candidates(prop, seed, cands, want_classes, jobs=8, budget_s=120.0):
+def confirm_candidates(prop, seed, cands, want_classes, jobs=8, budget_s=400.0):
     """cands: list of (run, result-with-tape).  Returns {class: (run, tape, fresh_result)} for every class of
     `want_classes` (or any class of `prop` when want_classes is None) that reproduces in a fresh interpreter."""
     from concurrent.futures import ThreadPoolExecutor
